@@ -128,7 +128,12 @@ fn private_is_dirty(
                         // files change from targets to sources as a project evolves.
                         log_debug!("{}  converted target -> source {:?}", depth, f.id());
                         f.is_generated = false;
-                        f.failed_runid = Some(0);
+                        // Not a failure: the original stores 0 here, which it
+                        // reads as "no failure".  (Some(0) made the next look at
+                        // this row, in the same walk or by a parallel one,
+                        // report "failed last time": definitely dirty, where a
+                        // checksummed target only needs to be rebuilt first.)
+                        f.failed_runid = None;
                         f.save(ptx)?;
                         f.refresh(ptx)?;
                         debug_assert!(!f.is_generated());
